@@ -32,6 +32,10 @@ use std::str::FromStr;
 use std::time::Duration;
 
 pub const OP_TIMEOUT_S: u64 = 30;
+/// numeric ids of the stream, the topic under test and its sibling: all different, so that a swapped pair of ids cannot go unnoticed
+pub const SID: u32 = 3;
+pub const TID: u32 = 5;
+pub const SIB: u32 = 6;
 /// bounded progress in no-wait mode: retries (2 ms apart) before a missing tail counts as lost
 pub const NOWAIT_RETRIES: u32 = 400;
 
@@ -317,8 +321,8 @@ impl World {
             dir,
             inst: None,
             client: None,
-            stream: Identifier::numeric(1).unwrap(),
-            topic: Identifier::numeric(1).unwrap(),
+            stream: Identifier::numeric(SID).unwrap(),
+            topic: Identifier::numeric(TID).unwrap(),
             parts,
             ops: vec![],
             ev: BTreeMap::new(),
@@ -418,14 +422,14 @@ impl World {
     pub async fn boot(&mut self) -> R<()> {
         self.start_instance().await?;
         let c = self.c();
-        timed("create_stream", c.create_stream(&self.stream_name, Some(1)))
+        timed("create_stream", c.create_stream(&self.stream_name, Some(SID)))
             .await?
             .map_err(|e| Stop::Inconclusive(format!("create_stream: {e}")))?;
         let exp = self.expiry(self.tcfg.expiry_us);
         let ms = self.maxsize(self.tcfg.max_size);
         timed(
             "create_topic",
-            c.create_topic(&self.stream, &self.topic_name, self.tcfg.partitions, CompressionAlgorithm::None, None, Some(1), exp, ms),
+            c.create_topic(&self.stream, &self.topic_name, self.tcfg.partitions, CompressionAlgorithm::None, None, Some(TID), exp, ms),
         )
         .await?
         .map_err(|e| Stop::Inconclusive(format!("create_topic: {e}")))?;
@@ -443,7 +447,7 @@ impl World {
         if self.sibling {
             timed(
                 "create_topic",
-                c.create_topic(&self.stream, "sibling", 1, CompressionAlgorithm::None, None, Some(2), IggyExpiry::NeverExpire, MaxTopicSize::Unlimited),
+                c.create_topic(&self.stream, "sibling", 1, CompressionAlgorithm::None, None, Some(SIB), IggyExpiry::NeverExpire, MaxTopicSize::Unlimited),
             )
             .await?
             .map_err(|e| Stop::Inconclusive(format!("create sibling topic: {e}")))?;
@@ -462,7 +466,7 @@ impl World {
             let pl = format!("{:x}/sib{}/{}|{}", self.hist & 0xffff_ffff, seq, i, "s".repeat(480));
             msgs.push(Message::new(Some(((self.hist as u128) << 64) | (0x5_0000_0000u128) | ((seq as u128) << 12) | (i as u128 + 1)), Bytes::from(pl), None));
         }
-        let two = Identifier::numeric(2).unwrap();
+        let two = Identifier::numeric(SIB).unwrap();
         let r = timed("send_sibling", self.c().send_messages(&self.stream, &two, &Partitioning::partition_id(1), &mut msgs)).await?;
         if let Err(e) = r {
             let w = json!({"send_to_sibling_topic": n, "error": e.to_string()});
@@ -737,7 +741,7 @@ impl World {
                 Ok(Some(s)) => s,
                 other => return Err(Stop::Inconclusive(format!("get_stream: {other:?}"))),
             };
-            let two = Identifier::numeric(2).unwrap();
+            let two = Identifier::numeric(SIB).unwrap();
             let sib = if self.sibling {
                 match timed("get_topic", self.c().get_topic(&self.stream, &two)).await? {
                     Ok(Some(x)) => Some(x),
@@ -1438,7 +1442,7 @@ impl World {
             // delete the index files: exercises the index rebuilder (documented recovery path)
             let mut removed = 0;
             for p in &self.parts {
-                let pdir = self.dir.join(format!("streams/1/topics/1/partitions/{}", p.id));
+                let pdir = self.dir.join(format!("streams/{SID}/topics/{TID}/partitions/{}", p.id));
                 if let Ok(rd) = std::fs::read_dir(&pdir) {
                     for e in rd.flatten() {
                         if e.path().extension().map(|x| x == "index").unwrap_or(false) {
